@@ -1,0 +1,30 @@
+//go:build verif
+
+// Package verifhooks re-exports the internal packages of strcase for the
+// external verification harness (internal packages cannot be imported from
+// another module).  Compiled only with -tags verif.
+package verifhooks
+
+import (
+	"github.com/charlievieth/strcase/internal/bytealg"
+	"github.com/charlievieth/strcase/internal/tables"
+)
+
+const (
+	UnicodeVersion = tables.UnicodeVersion
+	NativeIndex    = bytealg.NativeIndex
+)
+
+func CaseFold(r rune) rune                      { return tables.CaseFold(r) }
+func FoldMap(r rune) *[4]uint16                 { return tables.FoldMap(r) }
+func FoldMapExcludingUpperLower(r rune) [2]rune { return tables.FoldMapExcludingUpperLower(r) }
+func ToUpperLower(r rune) (rune, rune, bool)    { return tables.ToUpperLower(r) }
+func IndexByte(b []byte, c byte) int            { return bytealg.IndexByte(b, c) }
+func IndexByteString(s string, c byte) int      { return bytealg.IndexByteString(s, c) }
+func IndexNonASCII(s string) int                { return bytealg.IndexNonASCII(s) }
+func IndexByteNonASCII(b []byte) int            { return bytealg.IndexByteNonASCII(b) }
+func Count(b []byte, c byte) int                { return bytealg.Count(b, c) }
+func CountString(s string, c byte) int          { return bytealg.CountString(s, c) }
+func Cutover(n int) int                         { return bytealg.Cutover(n) }
+func BytealgIndex(s, sep []byte) int            { return bytealg.Index(s, sep) }
+func BytealgIndexString(s, sep string) int      { return bytealg.IndexString(s, sep) }
